@@ -5,6 +5,7 @@ from hypothesis import strategies as st
 from vlib import strat as S, oracles as O
 
 ID = "C02"
+SWITCH_OFF = 6        # every 6th case runs with xfab.CHECKS switched off (results must not depend on it)
 TARGETED = True     # thorough tier uses hypothesis.target on the residual/tolerance ratios
 RULE = ("Hypothesis: rotation spec (quaternion / Euler / near-gimbal / axis-aligned / products) x cell over the C01 "
         "domain x hkl in [-20,20]^3 x module; UB matrices constructed as U0.B0 with B0 upper triangular, positive "
